@@ -8,10 +8,7 @@ driver runs every evaluation route of the real code on the same inputs (M1) and 
 import itertools
 import json
 import subprocess
-import sys
 from concurrent.futures import ThreadPoolExecutor
-from fractions import Fraction
-from pathlib import Path
 
 import numpy as np
 
@@ -36,7 +33,7 @@ def eval_cfgs(ctx):
 
 def findspan_cfgs(ctx):
     if not ctx.thorough:
-        return [('fs', dict(Degrees={0, 1, 2, 3}, BMax=5, MaxSpans=4, NoEndCase=False), 2)]
+        return [('fs', dict(Degrees={0, 1, 2, 3}, BMax=4, MaxSpans=4, NoEndCase=False), 2)]
     return [('fs', dict(Degrees={0, 1, 2, 3, 4, 5}, BMax=6, MaxSpans=5, NoEndCase=False), 4)]
 
 
@@ -62,10 +59,6 @@ class Agg:
 
 def fr(x):
     return float(frac(x))
-
-
-def arr_fr(x):
-    return np.array([[fr(v) for v in row] for row in x], dtype=float)
 
 
 def bad(X, E, scale=None, tol=TOL):
@@ -107,7 +100,6 @@ def check_group(ctx, agg, g):
     from pyiga import bspline, assemble_tools
     p, n, U = g.p, g.n, g.U
     kv = bspline.KnotVector(np.array(g.kvl, dtype=float), p)
-    npts = len(U)
 
     def cmp(route, X, E, scale, what='value mismatch order<=p'):
         X = np.asarray(X, dtype=float)
@@ -438,7 +430,7 @@ def check_highdeg(ctx, agg, groups):
             continue
         for k, (Ek, rs) in w['E'].items():
             X = np.array(o['dv'][str(k)], dtype=float)
-            if X.shape != Ek.shape or not np.isfinite(X).all() or (np.abs(X - Ek) > 1e-7 * np.maximum(rs, 1e-300)).any():
+            if X.shape != Ek.shape or not np.isfinite(X).all() or (np.abs(X - Ek) > 1e-6 * np.maximum(rs, 1e-300)).any():
                 agg.add('high degree: bspline.%s (scipy splev) differs from active_deriv' % ('ev' if k == 0 else 'deriv'),
                         order=k, **w['info'])
                 break
@@ -525,7 +517,6 @@ def check_tp(ctx, agg, rec):
     # pointwise evaluators: the full tensor grid as an unstructured point list, coordinates in xyz order
     M = np.meshgrid(*grid, indexing='ij')
     P = [M[sdim - 1 - c] for c in range(sdim)]
-    Ejac_pw = Ejac if not scalar else Ejac
     X = guarded('tp_bsp_eval_pointwise', lambda: bspline.tp_bsp_eval_pointwise(kvs, coeffs, P))
     if X is not None:
         cmp('tp_bsp_eval_pointwise', X, E[zero], cs)
@@ -535,11 +526,11 @@ def check_tp(ctx, agg, rec):
     if not scalar:      # the pointwise Jacobian routines write result[k, :, j]: vector-valued functions only
         X = guarded('tp_bsp_jac_pointwise', lambda: bspline.tp_bsp_jac_pointwise(kvs, coeffs, P))
         if X is not None:
-            cmp('tp_bsp_jac_pointwise', X, Ejac_pw, dscale)
+            cmp('tp_bsp_jac_pointwise', X, Ejac, dscale)
         r = guarded('tp_bsp_eval_with_jac_pointwise', lambda: bspline.tp_bsp_eval_with_jac_pointwise(kvs, coeffs, P))
         if r is not None:
             cmp('tp_bsp_eval_with_jac_pointwise', r[0], E[zero], cs)
-            cmp('tp_bsp_eval_with_jac_pointwise', r[1], Ejac_pw, dscale)
+            cmp('tp_bsp_eval_with_jac_pointwise', r[1], Ejac, dscale)
 
 
 # ----------------------------------------------------------------------------------
@@ -571,7 +562,8 @@ def run(ctx):
 
     def run_fs(item):
         name, consts, workers = item
-        cfg = write_cfg(ctx.scratch / ('%s.cfg' % name), consts, invariants=FS_INVS, properties=['Termination'])
+        cfg = write_cfg(ctx.scratch / ('%s.cfg' % name), consts, invariants=FS_INVS,
+                        properties=['Termination'] if ctx.thorough else [])      # liveness only in the thorough tier
         return name, ctx.tlc('FindSpanPC', cfg, workers=workers, timeout=7200)
 
     def run_tp(ids):
